@@ -33,7 +33,8 @@ def main():
     # the real code under the race detector
     exe = vlib.build_harness(race=True)
     rounds = 2 if quick else 60
-    p = subprocess.run([exe, "conc", "-rounds", str(rounds)], capture_output=True, text=True, timeout=3000, env=dict(vlib.GOENV, GORACE="halt_on_error=0 history_size=5"))
+    gfile = os.path.join(wd, "groups.ndjson")
+    p = subprocess.run([exe, "conc", "-rounds", str(rounds), "-groups", gfile], capture_output=True, text=True, timeout=3000, env=dict(vlib.GOENV, GORACE="halt_on_error=0 history_size=5"))
     races = p.stderr.count("WARNING: DATA RACE")
     if p.returncode not in (0, 66) or not p.stdout.strip():
         raise vlib.Infra("conc run failed (%d):\n%s" % (p.returncode, p.stderr[-2000:]))
@@ -51,11 +52,14 @@ def main():
                 chk.violation({"what": "DATA RACE reported by the Go race detector", "frames": frames[:8]})
         if not seen:
             raise vlib.Infra("race reports without go-bexpr frames:\n" + p.stderr[:3000])
-    for m in res["mismatches"]:
-        chk.violation({"what": "a concurrent call returned something else than the sequential call", **m})
+    # every 7th concurrent call (and every deviating one) as an observation group (sequential, concurrent), validated by Rel.tla
+    for g in vlib.validate_groups(chk, wd, gfile):
+        chk.violation({"what": "a concurrent call returned something else than the sequential call", "group": g["obs"], **g["info"]})
+    for m in res["mismatches"][:3]:
+        vlib.log("mismatch:", json.dumps(m)[:300])
     chk.cov["evaluations"] = res["calls"]
     chk.cov["distinct_nontrivial"] = res["scenarios"]
-    chk.cov["traces_validated_against_impl"] = res["scenarios"]
+    chk.cov["traces_validated_against_impl"] += res["scenarios"]
     chk.sample({"scenario": "shared evaluator, 16 goroutines x 3 calls, first use", "expr": "all a.b.c as v { v.x == 1 and v.y != 2 }"})
     chk.notes["race_detector"] = "go build -race; goroutines released from one barrier, no hooks, no gates"
     chk.notes["rule"] = ("%d rounds x 14 expressions x {2,4,16} goroutines x {1,3} calls x 3 sharing modes x {first use, warm}; "
